@@ -12,6 +12,7 @@ package c04
 import (
 	"bytes"
 	"fmt"
+	"strings"
 	"testing"
 	"time"
 
@@ -95,15 +96,22 @@ func run(e *core.Env) {
 	ids := [2]*m.Address{ident.Get(ident.Routable, perm[0]), ident.Get(ident.Routable, perm[1])}
 	// (Privacy addresses are not used: the shipped routing table refuses the peer
 	// route for them, so such routers never link - unrelated to this property.)
-	universes := []string{"", "alpha", "beta"}
+	// Near misses included: names that differ in case, in surrounding blanks, in a trailing
+	// dot or in one letter are different universes.
+	universes := []string{"", "alpha", "beta", "Alpha", "ALPHA", "alpha ", " alpha", "alpha.", "alph", "alpha\x00", "betá"}
 	secrets := []string{"", "s3cret", "other"}
 	var uni, sec [2]string
 	switch tp.Pick(5, 2, 2) {
 	case 0:
 		uni[0] = universes[tp.Intn(3)]
 		uni[1] = uni[0]
-	default:
+	case 1:
 		uni[0], uni[1] = universes[tp.Intn(3)], universes[tp.Intn(3)]
+	default:
+		uni[0], uni[1] = universes[tp.Intn(len(universes))], universes[tp.Intn(len(universes))]
+		if uni[0] != uni[1] && strings.EqualFold(strings.TrimSpace(uni[0]), strings.TrimSpace(uni[1])) {
+			e.Probe("universe_names_that_differ_only_in_case_or_blanks")
+		}
 	}
 	switch tp.Pick(4, 2, 3) {
 	case 0:
@@ -189,6 +197,75 @@ func run(e *core.Env) {
 		e.Probe("honest_handshake_and_traffic_ok")
 	}
 	w.cleanupAttempt(att)
+
+	// ---- both ends dial each other at the same time (no faults) ----
+	// Two handshakes between the same two routers run interleaved; the tape decides the order
+	// in which their records arrive. How many links survive is C16's subject. Here: once the
+	// network is quiet, a link that both routers still hold must carry traffic - both ends
+	// completed a handshake, so what either seals the other must unseal.
+	if w.compat && tp.Chance(1, 3) {
+		time.Sleep(time.Second + time.Duration(tp.Intn(2000))*time.Millisecond)
+		first := tp.Intn(2)
+		a1 := linkpair.Dial(w.cn, w.S[first], w.S[1-first])
+		for k, pre := 0, tp.Intn(7); k < pre; k++ {
+			if hs := w.cn.Heads(); len(hs) > 0 {
+				w.cn.Deliver(hs[tp.Intn(len(hs))])
+			}
+		}
+		time.Sleep(time.Duration(1+tp.Intn(5)) * time.Millisecond)
+		a2 := linkpair.Dial(w.cn, w.S[1-first], w.S[first])
+		for guard := 0; guard < 200; guard++ {
+			hs := w.cn.Heads()
+			if len(hs) == 0 {
+				break
+			}
+			w.cn.Deliver(hs[tp.Intn(len(hs))])
+			if tp.Chance(1, 6) {
+				time.Sleep(time.Duration(1+tp.Intn(3)) * time.Millisecond)
+				simnet.Wait()
+			}
+		}
+		simnet.Wait()
+		e.Fault("cross_connect")
+		for round := 0; round < 3; round++ {
+			for i := 0; i < 2; i++ {
+				l := w.S[i].Node.Peering.GetLink(w.S[1-i].Node.IP)
+				lo := w.S[1-i].Node.Peering.GetLink(w.S[i].Node.IP)
+				if l == nil || lo == nil || l.IsClosing() || lo.IsClosing() {
+					continue
+				}
+				payload := tp.Bytes(1 + tp.Intn(300))
+				f, err := w.S[i].Node.Inst.Builder.NewFrameV1(w.S[i].Node.IP, w.S[1-i].Node.IP, frame.RouterPing, nil, payload, nil)
+				if err != nil {
+					e.Infra("frame: %v", err)
+				}
+				want, _ := f.FrameDataWithMargins(0, 0)
+				want = append([]byte(nil), want...)
+				_ = l.Send(f)
+				simnet.Wait()
+				w.cn.DrainFIFO(tp, 100)
+				simnet.Wait()
+				got := w.S[1-i].Drain()
+				stillBoth := w.S[i].Node.Peering.GetLink(w.S[1-i].Node.IP) == l && w.S[1-i].Node.Peering.GetLink(w.S[i].Node.IP) == lo
+				if len(got) == 1 && bytes.Equal(got[0].Data, want) {
+					e.Probe("traffic_after_simultaneous_dial_ok")
+					continue
+				}
+				// A frame may legitimately be lost with the link it was sent on: the two routers
+				// can hold links of two different connections, and the surplus one is on its way
+				// out. Not so when both links are still there afterwards: then the frame travelled
+				// a link both ends completed, and was refused.
+				if stillBoth && !l.IsClosing() && !lo.IsClosing() {
+					e.Fail("traffic-after-handshake-not-delivered-intact/simultaneous-dial", "%s: both routers hold a live link after dialling each other at the same time, but a frame sent by %s arrived %d times", w.desc, w.S[i].Node.Name, len(got))
+				}
+			}
+		}
+		w.S[0].Drain()
+		w.S[1].Drain()
+		w.cleanupAttempt(a1)
+		w.cleanupAttempt(a2)
+		e.Probe("simultaneous_dial")
+	}
 
 	// ---- faulted attempts ----
 	nAttempts := 8 + tp.Intn(16)
